@@ -44,7 +44,7 @@ def alphabet(tier):
     for k in ("con", "sto", "st"):
         for gi in (0, 2):
             ops.append(("A", k, gi))
-    ops += [("SP", 0), ("SP", 1), ("SPLIT", 0), ("SPLIT", 1), ("OPT",), ("JSON",), ("FLAT", 0), ("FLAT", 1), ("CS", 0), ("CS", 1), ("ARR", 0), ("ARR", 2), ("FIX", 0), ("FIX", 1), ("FIX", 3), ("FIXA", 0), ("FIXA", 1), ("FIXA", 3), ("SPLITDF", 0), ("SPLITDF", 2), ("AP", "con"), ("AP", "sto")]
+    ops += [("SP", 0), ("SP", 1), ("SPLIT", 0), ("SPLIT", 1), ("OPT",), ("JSON",), ("FLAT", 0), ("FLAT", 1), ("CS", 0), ("CS", 1), ("ARR", 0), ("ARR", 2), ("FIX", 0), ("FIX", 1), ("FIX", 3), ("FIXA", 0), ("FIXA", 1), ("FIXA", 3), ("PAR", "tr.efficiency", 0.7), ("PAR", "xtr.efficiency", 0.8), ("SPLITDF", 0), ("SPLITDF", 2), ("AP", "con"), ("AP", "sto")]
     if tier == "thorough":
         ops += [("SLP", 0), ("SLP", 1)]
     return ops
@@ -117,6 +117,7 @@ class World:
             self.P.append(row)
         # prices as a DataFrame without dates (row i = step i), valid for every grid of four steps
         self.Pdf4 = pd.DataFrame({k: np.asarray(v, float) for k, v in self.P[0][0].items()})
+        self.params = ()       # parameters of the objects changed in place so far: ((name, value), ...)
         self.acur = {}         # asset -> label of the grid last handed to it
         self.cur = None        # label of the grid last handed to the portfolio
         self.last = None       # (kind, args) of the last portfolio problem
@@ -139,9 +140,11 @@ class World:
         if op[0] == "AP":
             return op[1] in self.acur
         if op[0] in ("OPT",):
-            return self.last_op is not None
+            # (a problem built before a parameter was changed stays what it was: it is not compared with fresh objects)
+            return self.last_op is not None and getattr(self, "last_params", ()) == self.params
         if op[0] == "SLP":
-            return self.last_op is not None and self.last is not None and self.last[0] == "S" and self.last[1] == op[1] and not hasattr(self.last_op, "ops")
+            return self.last_op is not None and self.last is not None and self.last[0] == "S" and self.last[1] == op[1] and not hasattr(self.last_op, "ops") \
+                and getattr(self, "last_params", ()) == self.params
         return True
 
     def apply(self, op):
@@ -149,11 +152,18 @@ class World:
         import eaopack as eao
         from mc import history as H
         kind = op[0]
+        if kind == "PAR":   # a parameter of an asset of the portfolio is changed in place (a parameter sweep on the same objects)
+            _, name, value = op
+            obj, attr = name.split(".")
+            setattr(getattr(self, obj), attr, value)
+            self.params = tuple(sorted(dict(self.params, **{name: value}).items()))
+            return ("set",)
         if kind == "S":
             _, gi, pj = op
             prob = self.pf.setup_optim_problem(self.P[pj][gi], self.grids[gi])
             self.acur.update(con=gi, sto=gi)
             self.cur, self.last, self.last_op, self.last_res = gi, ("S", gi, pj), prob, None
+            self.last_params = self.params
             return ("problem", H.problem_hash(prob))
         if kind == "A":
             _, k, gi = op
@@ -169,12 +179,14 @@ class World:
             _, pj = op
             prob = self.pf.setup_optim_problem(self.P[pj][self.cur])
             self.last, self.last_op, self.last_res = ("S", self.cur, pj), prob, None
+            self.last_params = self.params
             return ("problem", H.problem_hash(prob))
         if kind == "SPLIT":
             _, gi = op
             prob = self.pf.setup_split_optim_problem(self.P[0][gi], self.grids[gi], interval_size="12h")
             self.acur.update(con=gi, sto=gi)
             self.cur, self.last, self.last_op, self.last_res = gi, ("SPLIT", gi), prob, None
+            self.last_params = self.params
             return ("problem", H.problem_hash(prob))
         if kind == "SPLITDF":
             _, gi = op
@@ -229,6 +241,8 @@ def fresh_reference(op, ctx):
     """what fresh objects return for the same call. ctx = (cur, last) of the world before the call"""
     w = World()
     cur, last = ctx[0], ctx[1]
+    for name, value in (ctx[3] if len(ctx) > 3 else ()):   # fresh objects built with the parameters as they are now
+        w.apply(("PAR", name, value))
     kind = op[0]
     if kind == "SP":
         w.pf.set_timegrid(w.grids[cur])
@@ -259,10 +273,10 @@ def run_history(case):
     w = World()
     ms0 = H.module_state_hash()
     desc = None
-    ctx = (None, None, ())
+    ctx = (None, None, (), ())
     try:
         for i, op in enumerate(hist):
-            ctx = (w.cur, w.last, tuple(sorted(w.acur.items())))
+            ctx = (w.cur, w.last, tuple(sorted(w.acur.items())), w.params)
             if not w.enabled(op):
                 res.update(status="disabled", validated=False, key=None)
                 return res
